@@ -1,3 +1,5 @@
 import Driver.Loop
 import GunYu.Drive.C17
-def main : IO Unit := Driver.run [GunYu.Drive.C17.handle]
+import GunYu.Drive.C17Seq
+import GunYu.Drive.C17Fresh
+def main : IO Unit := Driver.run [GunYu.Drive.C17.handle, GunYu.Drive.C17Seq.handle, GunYu.Drive.C17Seq.handleP, GunYu.Drive.C17Fresh.handle]
